@@ -4,8 +4,9 @@
 (* ascon-aead-common.c.  Projected object:                                 *)
 (*    [s : permutation state, key, nonce : 16 bytes, posn : 0..rate-1]     *)
 (* posn is "the partial-block position returned from and fed back into the *)
-(* block cipher helpers".  Nonces are concrete byte values (integers) in   *)
-(* both instances: the carry arithmetic is not a sponge computation.       *)
+(* block cipher helpers".  key holds algebra bytes; nonces are concrete     *)
+(* integers in both instances (public, and the carry arithmetic is not a   *)
+(* sponge computation).                                                    *)
 EXTENDS AsconModes
 
 \* 128-bit big-endian increment with full carry, wrapping at 2^128 (C14)
@@ -25,7 +26,7 @@ SetCounter(c) == <<0, 0, 0, 0, 0, 0, 0, 0,
 SetNonce(n) == IF Len(n) >= 16 THEN SubSeq(n, 1, 16)
                ELSE [i \in 1..(16 - Len(n)) |-> 0] \o n
 
-ZeroKey(par) == [i \in 1..par.klen |-> 0]
+ZeroKey(par) == Zeros(par.klen)
 Zero16 == [i \in 1..16 |-> 0]
 
 \* init/reinit: NULL key = all-zero key, NULL nonce = all-zero nonce; nself = the
@@ -38,7 +39,7 @@ IncInit(par, old, k, n, knull, nnull, nself) ==
 
 \* start a packet: initialise from (key, nonce), absorb the AD, advance the stored nonce by one
 IncStart(par, o, ad) ==
-  [o EXCEPT !.s = AeadAD(AeadInitIV(par, par.iv, Bytes(o.key), Bytes(o.nonce)), par, ad),
+  [o EXCEPT !.s = AeadAD(AeadInitIV(par, par.iv, o.key, Bytes(o.nonce)), par, ad),
             !.posn = 0,
             !.nonce = NonceInc(o.nonce)]
 
@@ -71,7 +72,7 @@ IncCrypt(par, o, data, dec) ==
 
 \* finalize: pad at posn, key XOR, p^a, key XOR, 16 tag bytes.  The state is left as computed.
 IncFinal(par, o) ==
-  LET K  == Bytes(o.key)
+  LET K  == o.key
       S1 == P(XorIn(Pad(o.s, o.posn), par.rate, K), 0)
       S2 == XorIn(S1, 24, Slice(K, par.klen - 16, 16))
   IN [o |-> [o EXCEPT !.s = S2], tag |-> Ext(S2, 24, 16)]
